@@ -1050,3 +1050,106 @@ pub fn rec_writer(e: En, w: WWord) -> WriterHandle {
 pub fn unused_rc() -> Rc<()> {
     Rc::new(())
 }
+
+// ---------------------------------------------------------------------------------------------
+// counting / tracing wrappers (C14)
+// ---------------------------------------------------------------------------------------------
+
+#[derive(Clone, Copy, Debug, PartialEq, Eq, Hash)]
+pub enum Wrap {
+    Count,
+    CountPrint,
+    Dbg,
+}
+impl Wrap {
+    pub const ALL: [Wrap; 3] = [Wrap::Count, Wrap::CountPrint, Wrap::Dbg];
+    pub fn name(self) -> &'static str {
+        match self {
+            Wrap::Count => "CountBit",
+            Wrap::CountPrint => "CountBit<PRINT>",
+            Wrap::Dbg => "DbgBit",
+        }
+    }
+}
+
+macro_rules! wrapped_writer {
+    ($E:ty, $W:ty, $wrap:expr, $desc:expr) => {{
+        let (b, log) = RecWordWrite::<$W>::new(None);
+        let l2 = log.clone();
+        let d: Option<Box<dyn Fn() -> Vec<u8>>> = Some(Box::new(move || l2.borrow().bytes.clone()));
+        let inner = BufBitWriter::<$E, _>::new(b);
+        let w: Box<dyn DynWriter> = match $wrap {
+            Wrap::Count => {
+                let mut o = WOpts::none();
+                o.counter = Some(|w: &CountBitWriter<$E, BufBitWriter<$E, RecWordWrite<$W>>, false>| w.bits_written as u64);
+                o.into_bytes = Some(|w: CountBitWriter<$E, BufBitWriter<$E, RecWordWrite<$W>>, false>| -> R<Vec<u8>> {
+                    let b = w.into_inner().into_inner().map_err(|e| e.to_string())?;
+                    let v = b.log.borrow().bytes.clone();
+                    Ok(v)
+                });
+                Box::new(WBox::<$E, _>::new(CountBitWriter::<$E, _, false>::new(inner), o, d, <$W as HWord>::NBITS, $desc))
+            }
+            Wrap::CountPrint => {
+                let mut o = WOpts::none();
+                o.counter = Some(|w: &CountBitWriter<$E, BufBitWriter<$E, RecWordWrite<$W>>, true>| w.bits_written as u64);
+                Box::new(WBox::<$E, _>::new(CountBitWriter::<$E, _, true>::new(inner), o, d, <$W as HWord>::NBITS, $desc))
+            }
+            Wrap::Dbg => Box::new(WBox::<$E, _>::new(DbgBitWriter::<$E, _>::new(inner), WOpts::none(), d, <$W as HWord>::NBITS, $desc)),
+        };
+        (w, Some(log))
+    }};
+}
+
+/// A writer wrapped in a counting / tracing wrapper, over the recording backend.
+pub fn make_wrapped_writer(e: En, w: WWord, wrap: Wrap) -> WriterHandle {
+    let desc = format!("{}/{}/{}", e.name(), w.name(), wrap.name());
+    let (wr, log) = match (e, w) {
+        (En::BE, WWord::U16) => wrapped_writer!(BE, u16, wrap, desc),
+        (En::LE, WWord::U16) => wrapped_writer!(LE, u16, wrap, desc),
+        (En::BE, _) => wrapped_writer!(BE, u64, wrap, desc),
+        (En::LE, _) => wrapped_writer!(LE, u64, wrap, desc),
+    };
+    WriterHandle { w: wr, log, cfg: WCfg { e, w, be: WBackend::Rec(None) } }
+}
+
+macro_rules! wrapped_reader {
+    ($E:ty, $W:ty, $ctor:ident, $wrap:expr, $kind:expr, $image:expr, $desc:expr) => {{
+        let (b, log) = RecWordRead::<$W>::new($image, true);
+        let inner = $ctor::<$E, _>::new(b);
+        let meta = RMeta { peek_limit: $kind.peek_limit(), word_bits: $kind.word_bits(), buffered: $kind.buffered(), desc: $desc };
+        let r: Box<dyn DynReader> = match $wrap {
+            Wrap::Count => {
+                let mut o = ROpts::none();
+                o.counter = Some(|r: &CountBitReader<$E, $ctor<$E, RecWordRead<$W>>, false>| r.bits_read as u64);
+                o.bit_pos = Some(f_bit_pos);
+                o.set_bit_pos = Some(f_set_bit_pos);
+                o.clone = Some(f_clone);
+                Box::new(RBox::<$E, _>::new(CountBitReader::<$E, _, false>::new(inner), o, meta))
+            }
+            Wrap::CountPrint => {
+                let mut o = ROpts::none();
+                o.counter = Some(|r: &CountBitReader<$E, $ctor<$E, RecWordRead<$W>>, true>| r.bits_read as u64);
+                o.bit_pos = Some(f_bit_pos);
+                Box::new(RBox::<$E, _>::new(CountBitReader::<$E, _, true>::new(inner), o, meta))
+            }
+            Wrap::Dbg => Box::new(RBox::<$E, _>::new(DbgBitReader::<$E, _>::new(inner), ROpts::none(), meta)),
+        };
+        (r, Some(log))
+    }};
+}
+
+/// A reader wrapped in a counting / tracing wrapper, over the zero-extended recording backend.
+pub fn make_wrapped_reader(e: En, kind: RKind, wrap: Wrap, image: &[u8]) -> ReaderHandle {
+    let desc = format!("{}/{}/{}", e.name(), kind.name(), wrap.name());
+    let (r, log) = match (e, kind) {
+        (En::BE, RKind::Buf16) => wrapped_reader!(BE, u16, BufBitReader, wrap, kind, image, desc),
+        (En::LE, RKind::Buf16) => wrapped_reader!(LE, u16, BufBitReader, wrap, kind, image, desc),
+        (En::BE, RKind::Buf64) => wrapped_reader!(BE, u64, BufBitReader, wrap, kind, image, desc),
+        (En::LE, RKind::Buf64) => wrapped_reader!(LE, u64, BufBitReader, wrap, kind, image, desc),
+        (En::BE, RKind::Unbuf) => wrapped_reader!(BE, u64, BitReader, wrap, kind, image, desc),
+        (En::LE, RKind::Unbuf) => wrapped_reader!(LE, u64, BitReader, wrap, kind, image, desc),
+        (En::BE, _) => wrapped_reader!(BE, u32, BufBitReader, wrap, RKind::Buf32, image, desc),
+        (En::LE, _) => wrapped_reader!(LE, u32, BufBitReader, wrap, RKind::Buf32, image, desc),
+    };
+    ReaderHandle { r, log, cfg: RCfg { e, kind, be: RBackend::RecZ } }
+}
